@@ -417,6 +417,17 @@ def consistency_width_rule(prog, res):
                      'the product of the dimensions is accumulated in %s (%s bits) and then compared with %s: products that differ by a multiple of 2^%s are accepted, '
                      'so a shape that does not match the element count passes the check' % (d['type'], d.get('tw'), uses or ['0'], d.get('tw')),
                      function=f.sig, expr='acc:' + ('count' if vs_count else 'zero'))
+    # std::accumulate(first, last, init, op): the accumulator has the type of `init`
+    for c in f.calls():
+        if c['callee'].get('qname') == 'std::accumulate' and len(f.call_args(c)) >= 3:
+            n += 1
+            ini = f.nodes[f.strip(f.call_args(c)[2], 'noop')]
+            inst = 'product accumulator of std::accumulate'
+            if ini.get('tc') == 'u' and (ini.get('tw') or 0) >= 64:
+                res.ok('consistency', inst, f.loc(c['id']), 'initial value of type %s (%s bits): the accumulation is done in that type' % (ini.get('t'), ini.get('tw')), function=f.sig, expr='acc:accumulate')
+            else:
+                res.viol('consistency', inst, f.loc(c['id']), 'std::accumulate accumulates in the type of its initial value, %s (%s/%s bits): the product of the dimensions is truncated' %
+                         (ini.get('t'), ini.get('tc'), ini.get('tw')), function=f.sig, expr='acc:accumulate')
     res.minimum('product accumulators in isDimensionConsistent', n, 1)
 
 
